@@ -53,22 +53,22 @@ CHECKS['C14'] = dict(
     note='Trusted: fold/detection model in ddv/checks/c14.py. "Declares something of a theory" is read as the code reads it (result sort of a declaration / a datatype declaration); functions mentioning a theory only in parameter sorts are not generated. The traced-run clause (mutator names of tested candidates) is checked by the SCHED executions of C01/C02.',
     design='3/C14')
 
-SCHED_NOTE = ('Trusted: the virtual-pool abstraction of DESIGN 2.5 (PULL/FIN/DEL atomic, FIFO result queue, flag reads summarised by the index k of the first read that sees "set", run-ahead of the producer capped at 2 queued tasks), the command models (deterministic functions of the token sequence), the reference tokenizer, CPython. Schedule coverage is exhaustive up to the stated deviation budget, not beyond.')
+SCHED_NOTE = ('Trusted: the virtual-pool abstraction of DESIGN 2.5 (PULL/FIN/DEL atomic, FIFO result queue, flag reads summarised by the index k of the first read that sees "set", run-ahead of the producer capped at 2 queued tasks; state pruning merges control states that differ only in node ids / generated names), the command models (deterministic functions of the token sequence), the reference tokenizer, CPython. Schedule coverage is exhaustive up to the stated deviation budget, not beyond.')
 
 CHECKS['C01'] = dict(
     level='model_checking', engine='SCHED',
     technique='stateless deviation-bounded exploration of all schedules of the real ddsmt main() under a virtual process pool, over a scenario product, with a modelled command',
-    text='The real ddsmt.__main__.main() runs in-process with multiprocessing replaced by a virtual pool whose every degree of freedom (which check finishes next, producer run-ahead, late main loop, which read of the abort flag first sees it set) is a choice point, and with the command replaced by a deterministic function of the candidate file\'s tokens. 429 scenarios (10 inputs x command models x 3 strategies x -j 1/2/3 x 3 output formats x 8 comparison settings x cross-check x mutator sets) are explored exhaustively up to 1 schedule deviation (thorough 2) - 70 k executions quick. On every execution: the command model re-run on the output file as written matches golden under the configured comparison, the output\'s token sequence is one the command was run on and accepted (command-side log), the input file is unchanged, candidate files are process-private.',
+    text='The real ddsmt.__main__.main() runs in-process with multiprocessing replaced by a virtual pool whose every degree of freedom (which check finishes next, producer run-ahead, late main loop, which read of the abort flag first sees it set) is a choice point, and with the command replaced by a deterministic function of the candidate file\'s tokens. 438 scenarios (11 inputs incl. bare top-level atoms and comments x command models x 3 strategies x -j 1/2/3 x 3 output formats x 8 comparison settings x cross-check x mutator sets): all at the default schedule, a third of the format/comparison family (rotated by VERIF_SEED) and a covering subset exhaustively up to 1 schedule deviation, micro scenarios up to 2 (thorough: 2 and 3), with pruning of revisited control states - about 25 k executions quick. REAL conformance: the model trace of a third of the -j 1 scenarios (all in thorough) is replayed against bin/ddsmt with the command model as a real script (trace inclusion). On every execution: the command model re-run on the output file as written matches golden under the configured comparison, the output\'s token sequence is one the command was run on and accepted (command-side log), the input file is unchanged, candidate files are process-private.',
     note=SCHED_NOTE, design='3/C01')
 CHECKS['C02'] = dict(
     level='model_checking', engine='SCHED',
     technique='stateless deviation-bounded schedule exploration + lazily decided adversarial command; fixed-point oracle re-deriving every proposal on the final input',
-    text='Hierarchical and hybrid runs (-j 1/2/3, six mutator sets, 12 input/command families) are explored up to 1 schedule deviation (thorough 2); on micro inputs the command is adversarial and lazily decided with accept budget 2, i.e. every deterministic command that accepts at most 2 of the candidates it is shown. At normal termination every proposal of every enabled mutator at every node of the final in-memory input is re-derived with ddSMT\'s own Producer, rendered as the command would see it, and must be rejected (concrete command) or must have been put to the command and rejected (adversarial). Default-schedule runs are additionally re-run with --strategy hierarchical on their own output and must report "unable to minimize". 58 k executions, 850 k proposals re-checked quick.',
+    text='Hierarchical and hybrid runs (-j 1/2/3, six mutator sets, 15 input/command families incl. scenarios where a late cosmetic rename enables a main mutator, where only a joint global removal is acceptable, and where a substitution puts one object at two positions) are explored up to 1 schedule deviation (thorough 2) with pruning of revisited control states; on micro inputs the command is adversarial and lazily decided with accept budget 2, i.e. every deterministic command that accepts at most 2 of the candidates it is shown. At normal termination the output file is read back and every proposal of every enabled mutator (taken from the registry and option flags, driven by the harness\'s own loop, not by ddSMT\'s pass list or Producer) at every node is rendered as the command would see it and must be rejected (concrete command) or must have been put to the command and rejected (adversarial). Default-schedule runs are additionally re-run with --strategy hierarchical on their own output and must report "unable to minimize". 58 k executions, 850 k proposals re-checked quick.',
     note=SCHED_NOTE, design='3/C02')
 CHECKS['C05'] = dict(
     level='model_checking', engine='SCHED',
     technique='stateless deviation-bounded exploration of all completion orders (incl. simultaneous and late successes) under a virtual pool; chain invariant on monitored derive/verdict/write events',
-    text='All strategies with -j 2/3 on scenarios built so that ddmin\'s parallel path and hierarchical restarts are exercised (models that need most of the input, same-length replacements that keep pickle sizes equal), explored up to 1 schedule deviation (thorough 2), plus the adversarial command with accept budget 2 (every pair of candidates of a run as the successes). Per virtual worker the per-process cache of strategy_ddmin is kept separately, tasks and results are pickled as the real pool does. Oracle on the monitored events: every content written was accepted before, was derived by one apply_simp call from its immediate predecessor (stale bases are flagged), the file at exit is the last write. 63 k executions quick; 1.3 k executions with a discarded success.',
+    text='All strategies with -j 2/3 on scenarios built so that ddmin\'s parallel path and hierarchical restarts are exercised (models that need most of the input, same-length replacements that keep pickle sizes equal), explored up to 1-2 schedule deviations (thorough 2-3) with pruning of revisited control states, plus the adversarial command with accept budget 2 (every pair of candidates of a run as the successes). REAL conformance: real -j 2/3 runs of bin/ddsmt must end in an output that a model execution with <= 2 deviations produces. Per virtual worker the per-process cache of strategy_ddmin is kept separately, tasks and results are pickled as the real pool does. Oracle on the monitored events: every content written was accepted before, was derived by one apply_simp call from its immediate predecessor (stale bases are flagged), the file at exit is the last write. 63 k executions quick; 1.3 k executions with a discarded success.',
     note=SCHED_NOTE, design='3/C05')
 CHECKS['C13'].update(
     level='model_checking', engine='SCHED+ENUM',
@@ -81,12 +81,12 @@ CHECKS['C18'] = dict(
     text='30 scenarios with -j 1 (10 inputs incl. ones where fresh variables and set-like lookups matter x 3 strategies) are run under the virtual one-worker pool for every schedule with up to 1 deviation (thorough 2: producer run-ahead, late main loop, every k) in 8 (16) separate interpreters with PYTHONHASHSEED 0..7; the sequence of accepted token sequences and the output bytes must be identical over all executions of a scenario. REAL tier: 16 runs of bin/ddsmt -j 1 with a real command that delays its k-th invocation, under two hash seeds, must give byte-identical outputs.',
     note=SCHED_NOTE + ' Process ids are irrelevant to the observations (only file contents are compared).', design='3/C18')
 
-GRAPH_NOTE = ('Trusted: the argument of DESIGN 2.8 that every sequence of accepted inputs of any run (any deterministic command, strategy, schedule) is a path of the explored rewrite graph; the seed family ddv/seeds.py (145 quick seeds: generated depth-1 formulas per theory, occurs-check equalities, hand-written command-level scripts); the harness serialisation as state key. Coverage is exhaustive within the stated depth / state caps from these seeds, not beyond (caps are reported in the evidence).')
+GRAPH_NOTE = ('Trusted: the argument of DESIGN 2.8 that every sequence of accepted inputs of any run (any deterministic command, strategy, schedule) is a path of the explored rewrite graph; the seed family ddv/seeds.py (generated depth-1 formulas per theory, occurs-check equalities, hand-written command-level scripts, one script per operator of the typed generator); the harness serialisation as state key. Coverage is exhaustive within the stated depth / state caps from these seeds, not beyond (caps are reported in the evidence).')
 
 CHECKS['C03'] = dict(
     level='model_checking', engine='GRAPH',
     technique='explicit-state search of the rewrite graph whose transitions are the real mutators (hierarchical proposals and ddmin group steps); SCC / self-loop detection; deterministic per-call work budgets',
-    text='From each of 145 (thorough: all generated) seeds the rewrite graph is explored breadth-first in two regimes - all mutators to depth 2 (thorough 3), and without the pure deleters/creators up to a state cap - with transitions computed by the real mutators, apply_simp, reduplicate and collect_information, including the ddmin group steps built by the real TaskGenerator, for both --replace-by-variable-mode settings (330 k states, 8.4 M transitions quick). Oracles: no proposal leaves the input unchanged; the explored graph has no strongly connected component with more than one state once the edges explained by the listed open findings (KF-C03-1/2/5) are removed - those are printed as KNOWN-FINDING; every filter/mutations/apply call stays within a count budget of 60(n+10)^2 Node hash calls and constructions (a CPU-time backstop turns a hang into a verdict).',
+    text='From each of ~185 quick seeds (generated depth-1 formulas per theory, occurs-check equalities, 33 hand-written command-level scripts, one script per operator of the typed generator in a VERIF_SEED-rotated slice; thorough: all) the rewrite graph is explored breadth-first in two regimes - all mutators to depth 2 (thorough 3), and without the pure deleters/creators up to a state cap - with transitions computed by the real mutators, apply_simp, reduplicate and collect_information, including the ddmin group steps built by the real TaskGenerator, for both --replace-by-variable-mode settings (330 k states, 8.4 M transitions quick). Oracles: no proposal leaves the input unchanged; the explored graph has no strongly connected component with more than one state once the edges explained by the listed open findings (KF-C03-1/2/5) are removed - those are printed as KNOWN-FINDING; every filter/mutations/apply call stays within a count budget of 60(n+10)^2 Node hash calls and constructions (a CPU-time backstop turns a hang into a verdict).',
     note=GRAPH_NOTE, design='3/C03')
 CHECKS['C15'] = dict(
     level='model_checking', engine='GRAPH',
